@@ -147,12 +147,15 @@ Fixpoint resolve_roots (tree : node) (seen roots : list (list str)) : bool :=
       end
   end.
 
+(** bySource is keyed by normalizeSource(repo.Source) — the key planPrune uses — since the repair `fix: zoekt-local-sync:
+    a repository and its own .git directory are one source`: a working tree x and its git directory x/.git (itself a
+    working tree when it contains a .git entry) given as two roots are "discovered by more than one root". *)
 Fixpoint add_all (acc : list spec) (l : list spec) : outcome (list spec) :=
   match l with
   | [] => Ok acc
   | s :: r =>
       if existsb (fun p => str_eqb (sp_name p) (sp_name s)) acc then Err E_DUP_NAME
-      else if existsb (fun p => str_eqb (sp_source p) (sp_source s)) acc then Err E_DUP_SOURCE
+      else if existsb (fun p => str_eqb (normalize_source (sp_source p)) (normalize_source (sp_source s))) acc then Err E_DUP_SOURCE
       else add_all (acc ++ [s]) r
   end.
 
